@@ -623,9 +623,10 @@ def regenerate(ctx):
         ctx.log("tool shape: " + [x for x in txt.split("\n") if x.strip().startswith("mkcfg")][0].strip())
         return True
     except (Unsupported, SyntaxError, OSError, IndexError, AttributeError) as e:
-        ctx.fail("translator gen/c10tool.py no longer recognises signals_to_torch_feat_dir: %s" % e,
-                 dict(correspondence="gen/c10tool.py -> coq/gen/C10Tool.v", error=str(e)), kind="tie", no_input=True)
-        return False
+        if not C.tie_fallback(ctx, "translator gen/c10tool.py no longer recognises signals_to_torch_feat_dir: %s" % e,
+                 dict(correspondence="gen/c10tool.py -> coq/gen/C10Tool.v", error=str(e)), kind="tie", no_input=True):
+            return False
+        return True
 
 
 def gen_histories(ctx, world, exhaustive_ws, kinds=(0, 1), n_random=0, doubles=False):
